@@ -30,6 +30,8 @@ Proved here (all for arbitrary nesting, arbitrary `Mem`, no size bound):
 import NetqasmVerif.Lemmas.Sdk
 import NetqasmVerif.Lemmas.SdkWrites
 import NetqasmVerif.Props.EprRegsObligations
+import NetqasmVerif.Lemmas.SdkMeas
+import NetqasmVerif.Lemmas.SdkSimFlush
 namespace NQ.C14
 open NQ.Sdk
 
@@ -356,5 +358,185 @@ theorem epr_sequence_compiles (p : List Top) (m : Mem) (pend : List PCmd) (step 
   · have := epr_forms_completed f hf
     exact ⟨this.1, fun m' hm' => compiles_of_need _ m' this.1 (by rw [hm']; omega)⟩
   · exact ⟨hc, fun m' hm' => compiles_of_need _ m' hc (by rw [hm']; exact hn)⟩
+
+/-! ### the M bank: measurement-outcome registers -/
+
+/-- **meas_registers_released_at_flush.** A flush that sends a subroutine leaves every M register free
+(`MemoryManager.reset` → `reset_used_meas_registers`). -/
+theorem meas_registers_released_at_flush (m m' : Mem) (pend cmds : List PCmd)
+    (h : flush m pend = .ok (m', some cmds)) : m'.measUsed = List.replicate 16 false := by
+  unfold flush at h
+  split at h
+  · cases h
+  · simp only at h
+    split at h
+    · cases h
+    · cases h; rfl
+
+/-- the M-bank analogue of `balanced`: an operation that keeps no outcome in a register (no
+`measure(store_array=False)` inside) leaves the M flags exactly as they were — the M register of a
+measurement into an array entry is given back at once -/
+theorem meas_balanced (op : Host) (m m' : Mem) (cs : List PCmd) (hb : BodyOK op)
+    (h : emit m op = .ok (m', cs)) : m'.measUsed = m.measUsed := ((emit_stat op m m' cs h).body hb).1
+
+/-- `measure(store_array=False)` takes exactly one M register (kept until the next flush) -/
+theorem reg_outcome_takes_one (m m' : Mem) (g : List Nat) (cs : List PCmd)
+    (h : emit m (.qop g .newReg) = .ok (m', cs)) :
+    ∃ k, m.measUsed.getD k true = false ∧ m'.measUsed = m.measUsed.set k true ∧ cs ≠ [] := by
+  simp only [emit] at h
+  unfold emitQop at h
+  simp only at h
+  split at h
+  · cases h
+  · rename_i m1 k h1
+    cases h
+    obtain ⟨hk, rfl⟩ := firstUnusedMeas_spec h1
+    exact ⟨k, hk, rfl, by simp⟩
+
+/-- with one M register free, no top-level operation fails with "Ran out of M-registers" -/
+theorem meas_compiles (op : Host) (m : Mem) (ht : TopOK op) (h : 0 < free m.measUsed) : NoMeas (emit m op) := by
+  rcases ht with hb | ⟨v, rfl⟩ | ⟨g, rfl⟩
+  · exact emit_noMeas op m hb h
+  · simp only [emit]
+    split
+    · rename_i e he; exact NoMeas.err (takeReg_noMeas _ _ he)
+    · exact NoMeas.ok _
+  · simp only [emit]; exact emitQop_noMeas _ _ _ h
+
+/-- at most 16 register outcomes per subroutine, and an M register free whenever an operation starts:
+`c` = register outcomes since the last flush -/
+def MeasBudget : Nat → List Top → Prop
+  | _, [] => True
+  | _, .flush :: rest => MeasBudget 0 rest
+  | c, .op h :: rest => c ≤ 15 ∧ MeasBudget (c + (mHandlesOf 0 h).length) rest
+
+theorem initArrays_noMeas : ∀ (ds : List ArrDecl) (m : Mem) (pend : List PCmd), NoMeas (initArrays m pend ds)
+  | [], m, pend => by simp only [initArrays]; exact NoMeas.ok _
+  | d :: ds, m, pend => by
+    simp only [initArrays]
+    split
+    · rename_i e he
+      refine NoMeas.err ?_
+      unfold initArray at he
+      simp only at he
+      split at he
+      · cases he
+      · split at he
+        · split at he
+          · rename_i e' he'; cases he; exact getInactive_noMeas _ _ he'
+          · split at he
+            · rename_i e' he'; cases he; exact activate_noMeas _ _ _ he'
+            · split at he
+              · rename_i e' he'; cases he; exact release_noMeas _ _ _ he'
+              · cases he
+        · cases he
+    · exact initArrays_noMeas ds _ _
+
+theorem free_replicate16 : free (List.replicate 16 false) = 16 := by decide
+
+/-- **meas_sequence_compiles** — the M-bank analogue of `sequence_compiles`: a program of top-level
+operations (`TopOK`) of ANY length with flushes anywhere never fails with "Ran out of M-registers" as
+long as no more than 16 register outcomes are taken between two flushes (`MeasBudget`): how many
+`measure(store_array=False)` the connection has completed before does not matter. -/
+theorem meas_sequence_compiles (p : List Top) :
+    ∀ (m : Mem) (pend : List PCmd) (step : Nat) (acc : RunOut) (c : Nat),
+    (∀ op, Top.op op ∈ p → TopOK op) → MeasBudget c p → 16 ≤ free m.measUsed + c →
+    (0 < c → pend ≠ []) → (∀ st, acc.err ≠ some (st, .noMeasRegister)) →
+    ∀ st, (runProg m pend step acc p).err ≠ some (st, .noMeasRegister) := by
+  induction p with
+  | nil => intro m pend step acc c _ _ _ _ hacc st; simpa [runProg] using hacc st
+  | cons t rest ih =>
+    intro m pend step acc c htop hb hfree hpend hacc st
+    cases t with
+    | op h =>
+      have ht := htop h (by simp)
+      obtain ⟨hc, hb'⟩ := hb
+      simp only [runProg]
+      split
+      · rename_i e he
+        simp only
+        intro hcontra
+        simp only [Option.some.injEq, Prod.mk.injEq] at hcontra
+        exact meas_compiles h m ht (by omega) e he hcontra.2
+      · rename_i m1 cs h1
+        refine ih m1 _ _ _ (c + (mHandlesOf 0 h).length) (fun o ho => htop o (by simp [ho])) hb' ?_ ?_
+          (by simpa using hacc) st
+        · rcases ht with hbo | ⟨v, rfl⟩ | ⟨g, rfl⟩
+          · rw [meas_balanced h m m1 cs hbo h1, mHandlesOf_bodyOK h 0 hbo]; simpa using hfree
+          · simp only [emit] at h1
+            split at h1
+            · cases h1
+            · rename_i m2 i h2
+              cases h1
+              simp [bindHandle, (takeReg_same h2).meas, mHandlesOf]; exact hfree
+          · obtain ⟨k, hk, hm, _⟩ := reg_outcome_takes_one m m1 g cs h1
+            rw [hm]
+            have := free_set_true _ _ hk
+            simp [mHandlesOf]; omega
+        · intro hpos
+          rcases ht with hbo | ⟨v, rfl⟩ | ⟨g, rfl⟩
+          · rw [mHandlesOf_bodyOK h 0 hbo] at hpos
+            have := hpend (by simpa using hpos)
+            intro e; simp at e; exact this e.1
+          · have : 0 < c := by simpa [mHandlesOf] using hpos
+            have := hpend this
+            intro e; simp at e; exact this e.1
+          · obtain ⟨_, _, _, hne⟩ := reg_outcome_takes_one m m1 g cs h1
+            intro e; simp at e; exact hne e.2
+    | flush =>
+      simp only [runProg]
+      split
+      · rename_i e he
+        simp only
+        intro hcontra
+        simp only [Option.some.injEq, Prod.mk.injEq] at hcontra
+        refine absurd hcontra.2 ?_
+        unfold flush at he
+        split at he
+        · rename_i e' he'; cases he; exact initArrays_noMeas _ _ _ _ he'
+        · simp only at he; split at he <;> cases he
+      · rename_i m1 sub h1
+        refine ih m1 [] _ _ 0 (fun o ho => htop o (by simp [ho])) hb ?_ (by intro h0; omega) (by simpa using hacc) st
+        cases sub with
+        | some cmds => rw [meas_registers_released_at_flush m m1 pend cmds h1, free_replicate16]; omega
+        | none =>
+          -- nothing was sent: nothing was pending, so no register outcome was taken in this segment
+          unfold flush at h1
+          split at h1
+          · cases h1
+          · rename_i m1' ini hini
+            simp only at h1
+            split at h1
+            · rename_i hemp
+              cases h1
+              have hp : pend = [] := by
+                have : ini ++ pend ++ List.map (fun d => PCmd.instr Mn.retArr [POp.addr d.addr]) m1.arraysToReturn ++
+                    List.map (fun r => PCmd.instr Mn.retReg [POp.reg r]) m1.regsToReturn = [] := by simpa using hemp
+                simp only [List.append_eq_nil_iff] at this
+                exact this.1.1.2
+              have hc0 : c = 0 := by
+                by_cases h0 : 0 < c
+                · exact absurd hp (hpend h0)
+                · omega
+              rw [(initArrays_sameL _ _ _ _ _ hini).meas]
+              omega
+            · cases h1
+
+/-- the fresh connection: 16 M registers free; and the seeded shape C14_5 (flags survive the flush)
+makes the 17th register outcome fail although every subroutine holds a single one -/
+theorem meas_fresh_16 : free Mem.init.measUsed = 16 := by decide
+
+theorem budget_one_per_flush (g : List Nat) : ∀ (n c : Nat), c ≤ 15 →
+    MeasBudget c ((List.replicate n [Top.op (.qop g .newReg), Top.flush]).flatten)
+  | 0, c, _ => by simp [MeasBudget]
+  | n + 1, c, hc => by
+    simp only [List.replicate_succ, List.flatten_cons, List.cons_append, List.nil_append, MeasBudget]
+    exact ⟨hc, budget_one_per_flush g n 0 (by omega)⟩
+
+/-- 40 register outcomes with a flush after each satisfy the budget and compile in the model -/
+theorem meas_budget_example :
+    MeasBudget 0 ((List.replicate 40 [Top.op (.qop [] .newReg), Top.flush]).flatten) ∧
+    (Sdk.run ((List.replicate 40 [Top.op (.qop [] .newReg), Top.flush]).flatten)).err = none :=
+  ⟨budget_one_per_flush [] 40 0 (by omega), by decide +kernel⟩
 
 end NQ.C14
